@@ -404,17 +404,26 @@ func resolveUnionBatch(ctx context.Context, sources []interface{}, typ *Union, s
 	var workUnits []*WorkUnit
 	for srcType, sources := range sourcesByType {
 		gqlType := typ.Types[srcType]
+		// Resolve every member object once, against the merged selections of all
+		// fragments on its type. Resolving fragment by fragment would make a later
+		// fragment overwrite the fields of an earlier one, and a member without
+		// any fragment would be left unresolved (null instead of an object).
+		merged := &SelectionSet{
+			// Selections on the union itself (__typename) apply to every member.
+			Selections: append([]*Selection{}, selectionSet.Selections...),
+		}
 		for _, fragment := range selectionSet.Fragments {
 			if fragment.On != srcType {
 				continue
 			}
-			units, err := resolveObjectBatch(ctx, sources, gqlType, fragment.SelectionSet, destinationsByType[srcType])
-			if err != nil {
-				return nil, err
-			}
-			workUnits = append(workUnits, units...)
+			merged.Selections = append(merged.Selections, fragment.SelectionSet.Selections...)
+			merged.Fragments = append(merged.Fragments, fragment.SelectionSet.Fragments...)
 		}
-
+		units, err := resolveObjectBatch(ctx, sources, gqlType, merged, destinationsByType[srcType])
+		if err != nil {
+			return nil, err
+		}
+		workUnits = append(workUnits, units...)
 	}
 	return workUnits, nil
 }
